@@ -29,7 +29,7 @@ RULES = ["commitments", "shape", "htlcs", "funds", "fee_low", "fee_high", "value
 TIERS = {
     "quick": {"passes": [(1, 1)], "mags_a": '{"n", "g"}', "mags": "n,g", "judges": 4, "workers": 8,
               "gens": 2},
-    "thorough": {"passes": [(2, 1), (1, 2)], "mags_a": '{"n", "g", "a"}', "mags": "n,g,a", "judges": 8,
+    "thorough": {"passes": [(2, 1), (0, 2)], "mags_a": '{"n", "g", "a"}', "mags": "n,g,a", "judges": 8,
                  "workers": 8, "gens": 6},
 }
 
